@@ -20,12 +20,14 @@ LEAN_FILE = 'PncProofs/C15.lean'
 NAMESPACE = 'Props.C15'
 LEAN_CONE = ['PncModel.Registry', 'PncModel.Generated.ReaderRegistration', 'PncProofs.C15']
 LEMMA_FILES = []
-REQUIRED_THEOREMS = ['frame', 'history_registry', 'history_independent', 'repeat_same', 'choose_accepts',
+REQUIRED_THEOREMS = ['frame', 'history_registry', 'history_independent', 'repeat_same', 'events_registry', 'events_independent', 'registered_first', 'choose_accepts',
                      'choose_first', 'named_same', 'aliasing_counterexample']
 RULE = ('pool of generated/copied files of self-describing formats (netcdf, IOAPI netcdf, uamiv, '
         'lateral_boundary, humidity, vertical_diffusivity, ffi1001, csv) each with its own extension, '
         'without extension and with a misleading extension, plus every sample under testcase/ (also ones on which '
-        'some isMine raises); random histories of length 0..9 of auto-detecting and format-named opens followed by '
+        'some isMine raises), two humidity files of equal size and record length with different layer/time splits, a little-endian gridded file '
+        '(opened with format and endian named), files of a user format; random histories of length 0..9 of auto-detecting and format-named opens '
+        'and, in 30 %, the registration of the user reader (a PseudoNetCDFFile subclass defined in the middle of the history) followed by '
         'a probe, each in a freshly forked process; compared: reader chosen at every step and registry '
         'order after every step (model), probe reader and data digest vs a fresh process (oracle), '
         'auto-detected vs explicitly named open; non-trivial = history contains at least one '
@@ -111,6 +113,31 @@ def _build_pool():
                 pth = os.path.join(d, 'tc_' + fn[5:])
                 shutil.copyfile(os.path.join(root, fn), pth)
                 add(key, pth)
+    # two humidity files of the same size and record length but a different split (2 layers x 3 hours, 3 x 2)
+    from .. import slabfmt as S
+    from .. import camx
+    import random as _random
+    r0 = _random.Random(15)
+    for tag, nz, nt in (('hum_a', 2, 3), ('hum_b', 3, 2)):
+        c = dict(fmt='humidity', nx=2, ny=2, nz=nz, flags=[[19200, 100 * h] for h in range(nt)],
+                 data=[[[camx.rand_f32_bits(r0) for _ in range(4)] for _ in range(nz)] for _ in range(nt)])
+        for suffix, ext in (('own', '.humidity'), ('noext', '')):
+            pth = os.path.join(d, '%s_%s%s' % (tag, suffix, ext))
+            open(pth, 'wb').write(S.encode(c))
+            add('%s_%s' % (tag, suffix), pth)
+    # a little-endian gridded file (history material only: opened with format='uamiv', endian='little')
+    cu = camx.gen_uamiv(r0)
+    pth = os.path.join(d, 'x_uamivle.uamiv')
+    open(pth, 'wb').write(camx.to_little_endian(camx.ref_encode_uamiv(cu)))
+    add('x_uamivle', pth)
+    pth = os.path.join(d, 'uamivgen_noext')
+    open(pth, 'wb').write(camx.ref_encode_uamiv(cu))
+    add('uamivgen_noext', pth)
+    # files of a user format whose reader is registered in the middle of a history
+    for suffix, ext in (('own', '.rawgrid'), ('noext', '')):
+        pth = os.path.join(d, 'rawgrid_%s%s' % (suffix, ext))
+        open(pth, 'wb').write(b'RAWG' + np.arange(8, dtype='>f4').tobytes())
+        add('rawgrid_%s' % suffix, pth)
     p = os.path.join(d, 'tab_own.csv')
     with open(p, 'w') as f:
         f.write('a,b\n1,2\n3,4\n')
@@ -204,13 +231,40 @@ def _open_one(pnc, path, cid, **kw):
     return dict(cls=cid.get(_clsname(type(f)), -1), digest=dg)
 
 
+USER = 'userpkg.readers.rawgrid'
+REG = '@reg'
+
+
+def _register_user_reader():
+    """what a user does: subclass PseudoNetCDFFile (the metaclass registers 'rawgrid' and 'readers.rawgrid')"""
+    import PseudoNetCDF as pnc
+
+    def isMine(cls, path, *a, **k):
+        with open(path, 'rb') as fh:
+            return fh.read(4) == b'RAWG'
+
+    def init(self, path, *a, **k):
+        data = np.fromfile(path, dtype='>f4', offset=4)
+        self.createDimension('n', data.size)
+        v = self.createVariable('v', 'f', ('n',))
+        v[:] = data
+    return type('rawgrid', (pnc.PseudoNetCDFFile,), dict(__module__='userpkg.readers', __qualname__='rawgrid',
+                                                        isMine=classmethod(isMine), __init__=init))
+
+
 def _run_history(pool, classes, hist, probe, named):
     import PseudoNetCDF as pnc
     from PseudoNetCDF import _getreader as g
     cid = {c: i for i, c in enumerate(classes)}
+    cid[USER] = len(classes)
     steps = []
     for key, fmt in hist + [[probe, None]]:
+        if key == REG:
+            _register_user_reader()
+            continue
         kw = dict(format=fmt) if fmt else {}
+        if key == 'x_uamivle':
+            kw = dict(format='uamiv', endian='little')
         r = _open_one(pnc, pool[key], cid, **kw)
         r['reg'] = [k for k, v in g._readers]
         steps.append(r)
@@ -220,10 +274,14 @@ def _run_history(pool, classes, hist, probe, named):
     return res
 
 
-def _fresh(pool, classes, key):
+def _fresh(pool, classes, key, withreg=False):
     import PseudoNetCDF as pnc
     cid = {c: i for i, c in enumerate(classes)}
-    return _open_one(pnc, pool[key], cid)
+    cid[USER] = len(classes)
+    if withreg:
+        _register_user_reader()
+    kw = dict(format='uamiv', endian='little') if key == 'x_uamivle' else {}
+    return _open_one(pnc, pool[key], cid, **kw)
 
 
 NAMED = {'uamiv': 'uamiv', 'lateral_boundary': 'lateral_boundary', 'ffi1001': 'ffi1001',
@@ -249,7 +307,7 @@ def _names_for(base, key, rng):
 def gen(rng, tier):
     P = _build_pool()
     keys = sorted(P['files'])
-    sd = [k for k in keys if not k.startswith('tc_')]
+    sd = [k for k in keys if not k.startswith('tc_') and not k.startswith('x_')]
     n = 60 if tier == 'quick' else 1500
     out = []
     for i in range(n):
@@ -261,23 +319,40 @@ def gen(rng, tier):
             hist.append([key, fmt])
         if rng.random() < 0.3 and hist:
             hist = hist + [hist[-1]]
-        probe = rng.choice(sd if rng.random() < 0.8 else keys)
+        probe = rng.choice(sd if rng.random() < 0.8 else [k for k in keys if not k.startswith('x_')])
         if rng.random() < 0.35:
             # an earlier open of the probe itself, with a format named
             hist.insert(rng.randint(0, len(hist)), [probe, _names_for(P['base'], probe, rng)])
+        if rng.random() < 0.3:
+            # a user reader is registered somewhere in the history (often after the first auto-detecting open) and its
+            # files are opened afterwards
+            hist.insert(rng.randint(0, len(hist)), [REG, None])
+            if rng.random() < 0.7:
+                probe = rng.choice(['rawgrid_noext', 'rawgrid_own'])
+        if rng.random() < 0.25:
+            # same-sized files of one family with different layouts, and a little-endian open, next to the probe
+            hist.append([rng.choice(['hum_a_own', 'hum_a_noext', 'hum_b_own', 'hum_b_noext', 'x_uamivle']), None])
+            if rng.random() < 0.6:
+                probe = rng.choice(['hum_a_own', 'hum_a_noext', 'hum_b_own', 'hum_b_noext', 'uamivgen_noext', 'uamiv_noext'])
         out.append(dict(hist=hist, probe=probe))
     # structured: an auto-detecting open on which some reader's isMine raises, then a probe that reader accepts
     base = P['base']
     pairs = []
     for f in keys:
         for r in base['acc'][f]['raises']:
-            for g2 in keys:
+            for g2 in sd:
                 if r in base['acc'][g2]['yes']:
                     pairs.append((f, g2))
     rng.shuffle(pairs)
     for f, g2 in pairs[:(12 if tier == 'quick' else 200)]:
         pre = [[rng.choice(sd), None]] if rng.random() < 0.5 else []
         out.append(dict(hist=pre + [[f, None]], probe=g2))
+    # byte order: a little-endian open (format and endian named) before and after big-endian files of the same reader
+    for h, pr in [([['x_uamivle', None]], 'uamiv_noext'), ([['x_uamivle', None]], 'uamivgen_noext'),
+                  ([['uamiv_own', None]], 'x_uamivle'), ([['tab_own', None], ['x_uamivle', None], ['uamiv_own', None]], 'x_uamivle'),
+                  ([['hum_a_own', None]], 'hum_b_noext'), ([['hum_b_noext', None]], 'hum_a_own'),
+                  ([['plain_own', None], [REG, None]], 'rawgrid_noext')]:
+        out.append(dict(hist=h, probe=pr))
     # the history that used to break: an .nc open before an extension-less netCDF probe
     out.append(dict(hist=[['plain_own', None]], probe='ioapi_noext'))
     out.append(dict(hist=[['plain_own', None], ['plain_own', None], ['uamiv_nc', None]], probe='plain_noext'))
@@ -294,7 +369,7 @@ def impl(case):
     classes = P['base']['classes']
     named = _named_for(case['probe'])
     res = _in_child(_run_history, pool, classes, case['hist'], case['probe'], named)
-    res['fresh'] = _in_child(_fresh, pool, classes, case['probe'])
+    res['fresh'] = _in_child(_fresh, pool, classes, case['probe'], any(k == REG for k, _ in case['hist']))
     return res
 
 
@@ -303,12 +378,20 @@ def to_line(case, res):
     base = P['base']
     reg = ','.join('%s:%d' % (k.replace(',', '_').replace(' ', '_'), c) for k, c in base['reg'])
     opens = []
+    uid = len(base['classes'])
     for key, fmt in case['hist'] + [[case['probe'], None]]:
+        if key == REG:
+            # the metaclass registers the short name, then the long one (each goes to the front)
+            opens += ['reg:rawgrid:%d' % uid, 'reg:readers.rawgrid:%d' % uid]
+            continue
         a = base['acc'][key]
+        yes = list(a['yes']) + ([uid] if key.startswith('rawgrid') else [])
         ext = _ext(P['files'][key]) or '-'
-        opens.append('%s/%s/%s/%s' % (ext, '+'.join(map(str, a['yes'])) or '-',
+        if key == 'x_uamivle':
+            fmt = 'uamiv'
+        opens.append('%s/%s/%s/%s' % (ext, '+'.join(map(str, yes)) or '-',
                                       '+'.join(map(str, a['raises'])) or '-', fmt or '-'))
-    return 'c15 hist %s %s' % (reg, ','.join(opens))
+    return 'c15 events %s %s' % (reg, ','.join(opens))
 
 
 def agree(case, out, res):
@@ -332,8 +415,8 @@ def agree(case, out, res):
         if not m.isdigit():
             return 'step %d: model %s, impl opened with class %s' % (i, m, s['cls'])
         if int(m) != s['cls']:
-            return 'step %d: model selects %s, impl %s' % (
-                i, P['base']['classes'][int(m)], P['base']['classes'][s['cls']] if s['cls'] >= 0 else s['cls'])
+            cl = P['base']['classes'] + [USER]
+            return 'step %d: model selects %s, impl %s' % (i, cl[int(m)], cl[s['cls']] if s['cls'] >= 0 else s['cls'])
     names0 = [k.replace(',', '_').replace(' ', '_') for k, c in P['base']['reg']]
     mreg = kv['reg'].split(',')
     if mreg != names0:
@@ -354,7 +437,7 @@ def oracle(case, res):
     if 'err' not in probe:
         if probe['cls'] != fresh['cls']:
             P = _build_pool()
-            cl = P['base']['classes']
+            cl = P['base']['classes'] + [USER]
             return 'probe %s is read by %s after history %s but by %s in a fresh process' % (
                 case['probe'], cl[probe['cls']], case['hist'], cl[fresh['cls']])
         if probe['digest'] != fresh['digest']:
@@ -367,7 +450,7 @@ def oracle(case, res):
             if nm['digest'] != probe['digest']:
                 return 'probe %s: auto-detected data differ from format=%s' % (case['probe'], _named_for(case['probe']))
     regs = [s['reg'] for s in res['steps']]
-    if any(r != regs[0] for r in regs):
+    if not any(k == REG for k, _ in case['hist']) and any(r != regs[0] for r in regs):
         return 'registry changed during the history (length %d -> %d)' % (len(regs[0]), len(regs[-1]))
     return None
 
@@ -380,6 +463,8 @@ def nontrivial(case, res):
     P = _build_pool()
     pk = case['probe'].rsplit('_', 1)[0]
     for h, fmt in case['hist']:
+        if h == REG:
+            return True
         if (_ext(P['files'][h]) or fmt) and (h.rsplit('_', 1)[0] != pk or fmt):
             return True
     return False
